@@ -70,6 +70,7 @@ def run(ck):
     reported = set()
     for c, i, s in zip(cases, impl, srcs):
         rule = c.strip("()").split(" ")[1]
+        site = "short-circuit-rhs" if "site=short-circuit-rhs" in c else ""
         ck.case(s)
         verdict, pos, where = (i.split(" | ")[0].split(" ") + ["", ""])[:3]
         msg = i.split(" | ", 1)[1] if " | " in i else ""
@@ -90,7 +91,13 @@ def run(ck):
         src = unq(s[1:-1])
         for k in ck.known:
             mt = k.get("match", {})
-            if mt.get("kind") == kind and re.search(mt.get("class_regex", ".*"), cls) and re.search(mt.get("source_regex", ""), src, re.S):
+            if mt.get("kind") != kind:
+                continue
+            if "site" in mt:
+                # matched by the edit's site (decided by the harness on the AST), whatever the rule
+                if mt["site"] == site:
+                    fid = k["id"]
+            elif re.search(mt.get("class_regex", ".*"), cls) and re.search(mt.get("source_regex", ""), src, re.S):
                 fid = k["id"]
         key = (kind, cls)
         if fid is None and key in reported:
